@@ -6,13 +6,14 @@ the canonical form instead of the text as written means that two programs which 
 flow get the same verdict for the same reason:
 
 * expand      `s.discard(k)`            -> `if k in s: s.remove(k)`
-              `d.pop(k, None)` (stmt)   -> `if k in d: del d[k]`
+              `d.pop(k, None)` (stmt)   -> `if k in d: del d[k]`;   `x = d.pop(k, None)` -> `x = d.get(k)` / `if k in d: del d[k]`
               `d.setdefault(k, []).append(v)` (stmt) -> `if k in d: d[k].append(v)` / `else: d[k] = [v]`
 * nest        statements after an `if` whose body ends in return / raise / continue / break move into its `else`
 * orient      `if not c: A else: B`     -> `if c: B else: A`     (statements and conditional expressions)
 * merge       `if a:` / `    if b: X` (no else anywhere, nothing else in the outer body) -> `if a and b: X`
 * compare     `b > a` -> `a < b`, `b >= a` -> `a <= b`; `None == x` / `CONST is x` -> constant on the right
 * comprehend  `x = []` + `for t in it: [if c:] x.append(e)` -> `x = [e for t in it if c]`; same for dict / set
+* alias       `t = E` + `X = t` / `return t` (t used nowhere else) -> `X = E` / `return E`
 Locations of the original nodes are kept (new nodes take the location of the node they replace), so reports still point at
 the source line.
 """
@@ -87,6 +88,17 @@ class Expand(_Bodies):
                     rep = ast.If(test=ast.Compare(left=copy.deepcopy(k), ops=[ast.In()], comparators=[copy.deepcopy(d)]),
                                  body=[ast.Expr(value=ast.Call(func=ast.Attribute(value=sub(ast.Load()), attr="append", ctx=ast.Load()), args=[v], keywords=[]))],
                                  orelse=[ast.Assign(targets=[sub(ast.Store())], value=ast.List(elts=[copy.deepcopy(v)], ctx=ast.Load()))])
+            if rep is None and isinstance(st, ast.Assign) and len(st.targets) == 1 and isinstance(st.targets[0], ast.Name) and isinstance(st.value, ast.Call) \
+                    and isinstance(st.value.func, ast.Attribute) and st.value.func.attr == "pop" and len(st.value.args) == 2 and not st.value.keywords \
+                    and isinstance(st.value.args[1], ast.Constant) and st.value.args[1].value is None and _simple(st.value.func.value) and _simple(st.value.args[0]):
+                # x = d.pop(k, None)  ->  x = d.get(k) ; if k in d: del d[k]
+                d, k = st.value.func.value, st.value.args[0]
+                get = ast.Assign(targets=st.targets, value=ast.Call(func=ast.Attribute(value=copy.deepcopy(d), attr="get", ctx=ast.Load()), args=[copy.deepcopy(k)], keywords=[]))
+                rm = ast.If(test=ast.Compare(left=copy.deepcopy(k), ops=[ast.In()], comparators=[copy.deepcopy(d)]),
+                            body=[ast.Delete(targets=[ast.Subscript(value=copy.deepcopy(d), slice=copy.deepcopy(k), ctx=ast.Del())])], orelse=[])
+                out.append(_loc(get, st))
+                out.append(_loc(rm, st))
+                continue
             out.append(_loc(rep, st) if rep is not None else st)
         return out
 
@@ -102,17 +114,30 @@ class Nest(_Bodies):
         return body
 
 
+_POSITIVE = {ast.NotIn: ast.In, ast.IsNot: ast.Is, ast.NotEq: ast.Eq}
+
+
 class Orient(ast.NodeTransformer):
+    """two-armed conditionals are written with the positive test: `not c`, `a not in b`, `a is not b`, `a != b` swap the arms"""
+
+    @staticmethod
+    def _negative(t):
+        if isinstance(t, ast.UnaryOp) and isinstance(t.op, ast.Not):
+            return t.operand
+        if isinstance(t, ast.Compare) and len(t.ops) == 1 and type(t.ops[0]) in _POSITIVE:
+            return ast.copy_location(ast.Compare(left=t.left, ops=[_POSITIVE[type(t.ops[0])]()], comparators=t.comparators), t)
+        return None
+
     def visit_If(self, n):
         self.generic_visit(n)
-        while isinstance(n.test, ast.UnaryOp) and isinstance(n.test.op, ast.Not) and n.orelse and not (len(n.orelse) == 1 and isinstance(n.orelse[0], ast.If)):
-            n.test, n.body, n.orelse = n.test.operand, n.orelse, n.body
+        while n.orelse and not (len(n.orelse) == 1 and isinstance(n.orelse[0], ast.If)) and self._negative(n.test) is not None:
+            n.test, n.body, n.orelse = self._negative(n.test), n.orelse, n.body
         return n
 
     def visit_IfExp(self, n):
         self.generic_visit(n)
-        while isinstance(n.test, ast.UnaryOp) and isinstance(n.test.op, ast.Not):
-            n.test, n.body, n.orelse = n.test.operand, n.orelse, n.body
+        while self._negative(n.test) is not None:
+            n.test, n.body, n.orelse = self._negative(n.test), n.orelse, n.body
         return n
 
 
@@ -233,7 +258,40 @@ class Comprehend(_Bodies):
         return out
 
 
-PASSES = (Expand, Nest, Orient, Merge, Compare, Comprehend)
+class Alias(_Bodies):
+    """`t = E` immediately followed by `X = t` / `return t` (t read nowhere else in the function) -> `X = E` / `return E`"""
+
+    def __init__(self):
+        self.fn = []
+
+    def visit_FunctionDef(self, node):
+        self.fn.append(node)
+        try:
+            return self._do(node)
+        finally:
+            self.fn.pop()
+
+    visit_AsyncFunctionDef = visit_FunctionDef
+
+    def process(self, body):
+        if not self.fn:
+            return body
+        i = 0
+        while i + 1 < len(body):
+            a, b = body[i], body[i + 1]
+            if isinstance(a, ast.Assign) and len(a.targets) == 1 and isinstance(a.targets[0], ast.Name) and isinstance(b, (ast.Assign, ast.Return)) \
+                    and isinstance(b.value, ast.Name) and b.value.id == a.targets[0].id:
+                t = a.targets[0].id
+                uses = [y for y in ast.walk(self.fn[-1]) if isinstance(y, ast.Name) and y.id == t]
+                if len(uses) == 2 and not any(isinstance(y, (ast.Global, ast.Nonlocal)) and t in y.names for y in ast.walk(self.fn[-1])):
+                    b.value = a.value
+                    del body[i]
+                    continue
+            i += 1
+        return body
+
+
+PASSES = (Expand, Nest, Orient, Merge, Compare, Comprehend, Alias)
 
 
 def normalise(tree, passes=PASSES):
